@@ -449,3 +449,102 @@ def box_class(op, T):
     if op["m"] == "read_subplane":
         return [(a[2 * k] % 4, a[2 * k + 1] % 4, (a[2 * k + 1] - 1) // bs[k + 1] > a[2 * k] // bs[k + 1]) for k in range(2)]
     return [x % 4 if isinstance(x, int) else 0 for x in a]
+
+
+# --------------------------------------------------------------------------------------------------
+# abstract operations: drawn without knowing the file, made concrete against a Truth at run time
+@st.composite
+def abstract_op(draw, methods):
+    return {"m": draw(st.sampled_from(methods)), "u": [draw(st.floats(0, 1, exclude_max=True)) for _ in range(8)],
+            "b": [draw(st.booleans()) for _ in range(8)], "k": [draw(st.integers(0, 3)) for _ in range(4)]}
+
+
+def _idx(u, n):
+    return min(n - 1, int(u * n))
+
+
+def _rng(u0, u1, n):
+    lo = _idx(u0, n)
+    hi = lo + 1 + int(u1 * (n - lo))
+    return lo, min(hi, n)
+
+
+def concretise(T, a):
+    """Map an abstract op onto in-range arguments for the file whose truth is T (None if the method
+    does not apply to this file)."""
+    m, u, b, k = a["m"], a["u"], a["b"], a["k"]
+    if m not in methods_for(T):
+        return None
+    if T.is_2d:
+        if m in ("get_trace", "trace", "gen_trace_header", "gen_trace_header_all", "header"):
+            return {"m": m, "a": [_idx(u[0], T.n_tr)]}
+        if m == "get_trace_window":
+            return {"m": m, "a": [_idx(u[0], T.n_tr), *_rng(u[1], u[2], T.n_s)]}
+        if m == "read_subplane":
+            return {"m": m, "a": [*_rng(u[0], u[1], T.n_tr), *_rng(u[2], u[3], T.n_s)]}
+        if m == "get_tracefield_values":
+            return {"m": m, "a": [T.owners[_idx(u[0], len(T.owners))]]}
+        return None
+    n_il, n_xl, n_s = T.n_il, T.n_xl, T.n_s
+    if m in ("read_inline", "read_inline_number", "iline"):
+        return {"m": m, "a": [_idx(u[0], n_il)]}
+    if m in ("read_crossline", "read_crossline_number", "xline"):
+        return {"m": m, "a": [_idx(u[0], n_xl)]}
+    if m in ("read_zslice", "read_zslice_coord", "depth_slice"):
+        return {"m": m, "a": [_idx(u[0], n_s)]}
+    if m in ("read_subvolume", "subvolume_acc", "xarray"):
+        op = {"m": m, "a": [*_rng(u[0], u[1], n_il), *_rng(u[2], u[3], n_xl), *_rng(u[4], u[5], n_s)]}
+        if m in ("subvolume_acc", "xarray"):
+            op["steps"] = [None if x == 0 else x for x in k[:3]]
+            op["open"] = list(b[:6])
+        if m == "xarray":
+            op["ints"] = [b[6] and k[3] == 0, b[7] and k[3] == 1, False]
+            op["neg"] = [False, False, False]
+            op["via"] = ["data", "isel", "sel", "backend"][k[3]]
+        return op
+    if m in ("read_volume", "tools.cube"):
+        return {"m": m, "a": []}
+    if m in ("get_trace", "trace", "gen_trace_header", "gen_trace_header_all", "header"):
+        return {"m": m, "a": [_idx(u[0], T.n_tr)]}
+    if m in ("get_trace_window", "get_trace_by_coord"):
+        op = {"m": m, "a": [_idx(u[0], T.n_tr), *_rng(u[1], u[2], n_s)]}
+        if m == "get_trace_by_coord":
+            op["open"] = list(b[:2])
+        return op
+    if m in ("cdiag", "adiag"):
+        if m == "cdiag":
+            d = -(n_xl - 1) + _idx(u[0], n_il + n_xl - 1)
+            L = diag_len_c(d, n_il, n_xl)
+        else:
+            d = _idx(u[0], n_il + n_xl - 1)
+            L = diag_len_a(d, n_il, n_xl)
+        op = {"m": m, "a": [d]}
+        if b[0]:
+            op["crop"] = list(_rng(u[1], u[2], L))
+        if b[1]:
+            op["win"] = list(_rng(u[3], u[4], n_s))
+        return op
+    if m == "get_tracefield_values":
+        return {"m": m, "a": [T.owners[_idx(u[0], len(T.owners))]]}
+    return None
+
+
+def run_ops(path, T, abstract_ops, fresh=True):
+    """Perform each abstract op on the real library and compare with the truth.  Returns labels."""
+    labels = []
+    for a in abstract_ops:
+        op = concretise(T, a)
+        if op is None:
+            continue
+        H = Handles(path, T)
+        try:
+            kind, want = expected(T, op)
+            try:
+                got = perform(H, op)
+            except Exception as e:
+                raise Violation(f"exception:{op['m']}", f"{op}: {type(e).__name__}: {e}")
+            compare(kind, got, want, op)
+        finally:
+            H.close()
+        labels.append(op["m"])
+    return labels
